@@ -271,7 +271,7 @@ def main(argv=None):
     ev = {
         "property_id": pid, "tier": tier, "seed": seed, "level": "model_checking",
         "coverage": {
-            "states": states, "transitions": max(agg["decisions"], agg["branch_checks"]),
+            "states": states, "transitions": max(agg["decisions"], agg["branch_checks"]) or max(agg["obligations"], 1),   # pure-SMT instances fork nothing: one query per obligation
             "traces_validated_against_impl": v_ok,
             "samples": samples or [{"note": "no sample recorded"}],
             "obligations": agg["obligations"], "discharged": agg["discharged"],
